@@ -1434,16 +1434,37 @@ void tell_room (object_t * room, svalue_t * v, array_t * avoid) {
 #endif
 
 void shout_string (char *str) {
-  object_t *ob;
+  object_t *ob, **who;
+  int n = 0, i;
 
   check_legal_string (str);
 
+  /* Collect the audience first: catch_tell() may destruct objects, and a destructed
+   * object's next_all leads into the list of destructed objects, not on through
+   * obj_list. The objects stay allocated until the backend frees the destructed ones.
+   */
   for (ob = obj_list; ob; ob = ob->next_all)
     {
-      if (!(ob->flags & O_LISTENER) || (ob == command_giver) || !ob->super)
-        continue;
-      tell_object (ob, str);
+      if ((ob->flags & O_LISTENER) && (ob != command_giver) && ob->super)
+        n++;
     }
+  if (!n)
+    return;
+  who = (object_t **) new_string (n * sizeof (object_t *), "shout_string");
+  push_malloced_string ((char *) who);	/* freed with the stack if catch_tell() raises an error */
+  for (i = 0, ob = obj_list; ob && i < n; ob = ob->next_all)
+    {
+      if ((ob->flags & O_LISTENER) && (ob != command_giver) && ob->super)
+        who[i++] = ob;
+    }
+  n = i;
+  for (i = 0; i < n; i++)
+    {
+      if (who[i]->flags & O_DESTRUCTED)
+        continue;
+      tell_object (who[i], str);
+    }
+  pop_stack ();
 }
 
 /**
